@@ -18,6 +18,7 @@
 #include "nmtools/array/array/compress.hpp"
 #include "nmtools/array/array/resize.hpp"
 #include "nmtools/array/array/expand.hpp"
+#include "nmtools/array/array/concatenate.hpp"
 #include "show.hpp"
 #include "c04_common.hpp"
 
@@ -74,12 +75,11 @@ static std::string handle(const Case& c) {
     }
     if (op == "repeat_ix") {       // repeat_ix S:kind L:shape L:idx I:repeats I:axis
         int r = (int)c.args[3].val; int ax = (int)c.args[4].val;
-        return with_ulist(kind(0), c.args[1].list, [&](const auto& shp) {
-            return with_ulist(kind(0), c.args[2].list, [&](const auto& idx) -> std::string {
+        return with_ulist_pair(kind(0), c.args[1].list, c.args[2].list, [&](const auto& shp, const auto& idx) -> std::string {
                 auto dst = ix::shape_repeat(shp, r, ax);
                 auto src = ix::repeat(shp, idx, r, ax);
                 return "ok " + show_index(dst) + " ; " + show_index(src);
-            }); });
+            });
     }
     // ------------------------------------------------------------------ roll
     if (op == "roll") {            // roll S:kind A:src I:shift I:axis|N      (single axis / None)
@@ -107,13 +107,12 @@ static std::string handle(const Case& c) {
     }
     if (op == "roll_ix") {         // roll_ix S:kind L:shape L:idx I:shift I:axis -> "ok <index::roll>"
         int sh = (int)c.args[3].val; int ax = (int)c.args[4].val;
-        return with_ulist(kind(0), c.args[1].list, [&](const auto& shp) {
-            return with_ulist(kind(0), c.args[2].list, [&](const auto& idx) -> std::string {
+        return with_ulist_pair(kind(0), c.args[1].list, c.args[2].list, [&](const auto& shp, const auto& idx) -> std::string {
                 auto dst = ix::shape_roll(shp, sh, ax);
                 if (!nm::has_value(dst)) return "nothing";
                 auto src = ix::roll(shp, idx, sh, ax);
                 return "ok " + show_index(nm::unwrap(dst)) + " ; " + show_index(src);
-            }); });
+            });
     }
     // ------------------------------------------------------------------ pad
     if (op == "pad") {             // pad S:kind A:src L:widths   (fill value -1)
@@ -134,6 +133,80 @@ static std::string handle(const Case& c) {
                 auto src = ix::pad(idx, shp, nm::unwrap(dst), w);
                 return "ok " + show_index(nm::unwrap(dst)) + " ; " + (nm::has_value(src) ? show_index(nm::unwrap(src)) : std::string("fill"));
             }); });
+    }
+
+    // ------------------------------------------------------------------ take
+    if (op == "take") {            // take S:kind A:src L:indices I:axis|N
+        auto a = make_array(c.args[1]);
+        if (c.args[3].kind == 'N')
+            return with_ilist(kind(0), c.args[2].list, CT_LISTS_TAKE, [&](const auto& ind) -> std::string { return show1(view::take(a, ind, None)); });
+        ll ax = c.args[3].val;
+        if (kind(0) == "ctax") return with_ct_int(ax, CT_INTS_AXIS, [&](auto axc) -> std::string { return show(view::take(a, vec_of<int>(c.args[2].list), axc)); });
+        return with_ilist(kind(0), c.args[2].list, CT_LISTS_TAKE, [&](const auto& ind) -> std::string { return show(view::take(a, ind, (int)ax)); });
+    }
+    if (op == "take_e") {
+        auto a = make_array(c.args[0]); auto ind = vec_of<int>(c.args[1].list);
+        if (c.args[2].kind == 'N') return show(na::take(a, ind, None));
+        return show(na::take(a, ind, (int)c.args[2].val));
+    }
+    if (op == "take_ix") {         // take_ix S:kind L:shape L:indices L:idx I:axis -> "ok <shape_take> ; <index::take>"
+        int ax = (int)c.args[4].val; auto ind = vec_of<size_t>(c.args[2].list);
+        return with_ulist_pair(kind(0), c.args[1].list, c.args[3].list, [&](const auto& shp, const auto& idx) -> std::string {
+                auto dst = ix::shape_take(shp, ind, ax);
+                auto src = ix::take(idx, shp, ind, ax);
+                return "ok " + show_index(dst) + " ; " + show_index(src);
+            });
+    }
+    // ------------------------------------------------------------------ compress
+    if (op == "compress") {        // compress S:kind L:condition A:src I:axis|N
+        auto a = make_array(c.args[2]);
+        if (c.args[3].kind == 'N')
+            return with_ilist(kind(0), c.args[1].list, CT_LISTS_NONE, [&](const auto& cond) -> std::string { return show1(view::compress(cond, a, None)); });
+        int ax = (int)c.args[3].val;
+        return with_ilist(kind(0), c.args[1].list, CT_LISTS_NONE, [&](const auto& cond) -> std::string { return show(view::compress(cond, a, ax)); });
+    }
+    if (op == "compress_e") {
+        auto a = make_array(c.args[1]); auto cond = vec_of<int>(c.args[0].list);
+        if (c.args[2].kind == 'N') return show(na::compress(cond, a, None));
+        return show(na::compress(cond, a, (int)c.args[2].val));
+    }
+    // ------------------------------------------------------------------ resize
+    if (op == "resize") {          // resize S:kind A:src L:dst_shape
+        auto a = make_array(c.args[1]);
+        return with_ilist(kind(0), c.args[2].list, CT_LISTS_RESIZE, [&](const auto& dst) -> std::string { return show(view::resize(a, dst)); });
+    }
+    if (op == "resize_e") {
+        auto a = make_array(c.args[0]); auto dst = vec_of<int>(c.args[1].list);
+        return show(na::resize(a, dst));
+    }
+    if (op == "resize_ix") {       // resize_ix S:kind L:src L:dst L:idx
+        return with_ulist_pair(kind(0), c.args[1].list, c.args[2].list, [&](const auto& shp, const auto& dst) -> std::string {
+                auto r = ix::shape_resize(shp, dst);
+                if (!nm::has_value(r)) return "nothing";
+                auto idx = vec_of<size_t>(c.args[3].list);
+                auto src = ix::resize(idx, shp, dst);
+                return "ok " + show_index(nm::unwrap(r)) + " ; " + show_index(src);
+            });
+    }
+    // ------------------------------------------------------------------ expand
+    if (op == "expand") {          // expand S:kind A:src I:axis I:spacing    (fill value -1)
+        auto a = make_array(c.args[1]); int sp = (int)c.args[3].val; ll ax = c.args[2].val;
+        if (kind(0) == "ct") return with_ct_int(ax, CT_INTS_AXIS, [&](auto axc) -> std::string { return show(view::expand(a, axc, sp, (ll)-1)); });
+        return show(view::expand(a, (int)ax, sp, (ll)-1));
+    }
+    if (op == "expand_m") {        // expand_m S:kind A:src L:axes L:spacing
+        auto a = make_array(c.args[1]); auto sp = vec_of<int>(c.args[3].list);
+        return with_ilist(kind(0), c.args[2].list, CT_LISTS_AXES, [&](const auto& axes) -> std::string { return show(view::expand(a, axes, sp, (ll)-1)); });
+    }
+    if (op == "expand_e") {
+        auto a = make_array(c.args[0]);
+        return show(na::expand(a, (int)c.args[1].val, (int)c.args[2].val, (ll)-1));
+    }
+    // ------------------------------------------------------------------ concatenate, eager (see the note in c04_b.cpp)
+    if (op == "concat_e") {        // concat_e A:lhs A:rhs I:axis|N
+        auto a = make_array(c.args[0]); auto b = make_array(c.args[1]);
+        if (c.args[2].kind == 'N') return show(na::concatenate(a, b, None));
+        return show(na::concatenate(a, b, (int)c.args[2].val));
     }
     return "unsupported";
 }
